@@ -3,6 +3,7 @@
 // normal return or a C++ exception. Anything else (sanitizer report, fatal signal, std::terminate, step budget
 // exceeded, watchdog) is a violation keyed by template and kind.
 #include "dsp.h"
+#include <map>
 #include <limits>
 #include "verif-hooks.h"
 
@@ -1269,7 +1270,7 @@ static Outcome5 run_child(const std::function<void()>& body, const std::string& 
         }
         struct timespec t1;
         clock_gettime(CLOCK_MONOTONIC, &t1);
-        if ((t1.tv_sec - t0.tv_sec) > watchdog_s * (g_memcheck ? 20 : 1)) {
+        if ((t1.tv_sec - t0.tv_sec) > watchdog_s * (g_memcheck ? 8 : 1)) {
             kill(pid, SIGKILL);
             waitpid(pid, &status, 0);
             hang = true;
@@ -1359,7 +1360,14 @@ static Outcome5 run_child(const std::function<void()>& body, const std::string& 
     return {Res::BadOutcome, kind, txt.substr(0, 1800)};
 }
 
+static std::map<std::string, int> g_hangs;   //per template: confirmed hangs in this shard
+
 static void run_case(const Tmpl& t, uint64_t code, const std::string& errfile) {
+    if (g_hangs[t.name] >= 2) {
+        //two variants of this template already hung (each costs two watchdog periods): the verdict is in, the rest is skipped
+        vh::skip("variants_of_a_template_that_already_hung_twice");
+        return;
+    }
     V v;
     v.counting = false;
     v.code = code;
@@ -1390,6 +1398,7 @@ static void run_case(const Tmpl& t, uint64_t code, const std::string& errfile) {
         vh::obs_add("outcome_threw");
         break;
     case Res::Hang:
+        ++g_hangs[t.name];
         vh::obs_add("outcome_bad");
         vh::violation(vh::fmt("C05/%s/hang", t.name.c_str()), vh::fmt("template %s variant %llu (%s) did not finish within 30 s and again within 60 s", t.name.c_str(), (unsigned long long)code, v.text.c_str()));
         break;
